@@ -102,8 +102,13 @@ def _history(seed, n, content_seed, rates):
             @tr.intercept_output('out')
             def out(self, x):
                 return None
-        Op.__name__ = 'HistOp%d' % i
-        tr.recording_params(RecordingParameters(sampling_rate=rate))(Op)
+        if rate is None:
+            # an operation class without recording parameters (default policy: keep everything) that happens to carry
+            # the *name* of class 0: the policy belongs to the class, not to its name
+            Op.__name__ = 'HistOp0'
+        else:
+            Op.__name__ = 'HistOp%d' % i
+            tr.recording_params(RecordingParameters(sampling_rate=rate))(Op)
         ops.append(Op)
     decisions = []
     per_decision = []
@@ -123,7 +128,7 @@ def _history(seed, n, content_seed, rates):
 
 
 def long_histories(rep, seed, n):
-    rates = [0.3, 0.7, 1.0]
+    rates = [0.3, 0.7, 1.0, None]
     # seed 0 is a legal seed too: the same seed twice must give the same decisions for it as well
     z1, _, _ = _history(0, min(n, 400), content_seed=11, rates=rates)
     z2, _, _ = _history(0, min(n, 400), content_seed=11, rates=rates)
@@ -144,11 +149,12 @@ def long_histories(rep, seed, n):
         rep.violation({'summary': 'sampling_history: decisions depend on operation content/outcome (first at %d)' % i,
                        'signature': None}, replay={'kind': 'history', 'seed': seed + 1, 'n': n, 'index': i})
     for k, rate in enumerate(rates):
+        rate = 1.0 if rate is None else rate
         ds = [kept for kk, kept in a if kk == k]
         if not ds:
             continue
         frac = sum(ds) / float(len(ds))
-        info['rate_%s' % rate] = {'decisions': len(ds), 'kept_fraction': round(frac, 4)}
+        info['class_%d_rate_%s' % (k, rate)] = {'decisions': len(ds), 'kept_fraction': round(frac, 4)}
         if rate >= 1:
             ok = frac == 1.0
         else:
@@ -158,7 +164,7 @@ def long_histories(rep, seed, n):
             rep.violation({'summary': 'sampling_history: kept fraction %.4f of %d decisions is not the rate %.2f'
                                       % (frac, len(ds), rate), 'signature': None},
                           replay={'kind': 'history', 'seed': seed + 1, 'n': n, 'rate': rate})
-    info['draws_per_fractional_decision'] = sorted(set(d for (k, _), d in zip(a, da) if rates[k] < 1))
+    info['draws_per_fractional_decision'] = sorted(set(d for (k, _), d in zip(a, da) if rates[k] is not None and rates[k] < 1))
     rep.extra['long_histories'] = info
     rep.note_behaviour(('long-history', seed, n), True)
 
